@@ -86,9 +86,10 @@ CHECKS = {
              note='Stubs: alloc::fmt::format.'),
  'C05': dict(engine='K (built-in tables, resolver on import-free files) + T (every type node reaches the resolver exactly once, any depth) + native sweep',
              technique='Kani/CBMC + symbolic execution of the walker MIR', design='4/C05', category='model_checking',
-             text='Partial. walk_types_mut offers every type node at any nesting depth exactly once and resolve_types calls resolve_type on it (engine T, induction); built-in name tables round-trip; '
-                  'resolve_type on files without imports/forward declarations over a 12-name pool (built-ins, qualified names, near-misses): kind and exactly one Error or none. Matching against non-empty '
-                  'import sets is NOT decided by a solver (HashSet under CBMC does not finish); a native sweep of 67 references covers it and any discrepancy there makes the check inconclusive.',
+             text='resolve_type is executed from its MIR on a symbolic written name, <= 2 (3) imports, <= 1 forward declaration and <= 1-2 registered keys, all unconstrained strings, with find over a hash set '
+                  'returning ANY matching element: every reached classification is compared with the scoping rules of the statement (import by equality or dot-aligned suffix, forward declaration, built-ins, a '
+                  'built-in stays a built-in when imported, exactly one Error for what nothing covers, nothing covered is left unresolved). walk_types_mut offers every type node at any nesting depth exactly once '
+                  'and resolve_types calls resolve_type on it (engine T, induction); Kani: built-in tables and the import-free resolver. Native sweep of 67 references.',
              note='Stubs: RandomState::new (empty containers only), alloc::fmt::format.'),
  'C18': dict(engine='K (find_content_string) + A (scan start = first token, in C04) + native sweep', technique='Kani proof harness over the real back-scan, comment text symbolic',
              design='4/C18', category='model_checking',
@@ -101,17 +102,30 @@ CHECKS = {
              text='Partial: the four panic mechanisms named by the anchors. Doc back-scan returns normally for every text of <= 7 (9) characters over 10 classes; every offset handed to the line/column '
                   'lookup is a token boundary for all layouts; every type the constructors build passes check_container without unreachable!/index panic; every non-User parse error becomes a diagnostic.',
              note='Outside: lexer/regex, line-col, parse_javadoc, termination, id bookkeeping (HashMap).'),
+ 'C09': dict(engine='T (symbolic execution of check_methods\' per-method closure from an arbitrary abstract pre-state: inductive step) + native sweep',
+             technique='inductive step by symbolic execution of the real MIR with abstract HashMap models; z3 for path feasibility', design='4/C09', category='model_checking',
+             text='check_methods is a fold over walk_methods with four pieces of state (name -> first method, code -> first method among distinct names, first method with / without a code). '
+                  'Its per-method closure is executed from an ARBITRARY pre-state (map look-ups may miss or hit some earlier method, markers None/Some) and one arbitrary method; on every path the '
+                  'diagnostics (count, kind, range, related range) and the state updates equal the transition the statement prescribes, no path panics, and the assumed invariant is preserved - so the '
+                  'result holds for method sequences of any length. The initial state and the fold over walk_methods are read off the MIR; walk_methods yields methods only (C15). '
+                  'Native sweep: all 1554 sequences of <= 4 methods over 2 names x {no code, 2 codes}.',
+             note='Trusted: std HashMap get/insert/entry/is_empty behave as documented (modelled, not executed); which range the mixed Error points back to is not part of the claim.'),
+ 'C06': dict(engine='T (symbolic execution of check_imports / check_declared_parcelables with explicit HashMap models; z3 strings) + native sweep',
+             technique='symbolic execution of the real MIR, hash order quantified away, z3 per (statement, category)', design='4/C06', category='model_checking',
+             text='check_imports and check_declared_parcelables are executed from their MIR on lists of <= 2 (3 thorough) statements whose qualified and simple names are unconstrained strings, with small '
+                  'symbolic resolved / registered-key / import-map collections. The local HashMaps are explicit (entry / insert / get fork on key equality), iteration yields the entries in every order and find '
+                  'returns any matching entry. Per path and per (statement, category: duplicate / unresolved / unused; conflict / repeated / unused / usage) z3 decides present => deserved and absent => not deserved, '
+                  'and that a repeat points back to the first occurrence. The resolver closure is shown to record the key every node resolved to. Native sweep: 1 000+ import / declaration lists.',
+             note='Trusted: std HashMap/HashSet behave as documented (modelled); Import::get_qualified_name is an atomic string per statement here (formatting: C17). Lists longer than the bound are outside.'),
 }
 
 NA = {
  'C02': 'tree content is produced by the regex lexer, the generated __reduce and string-copying actions; none can be executed symbolically with what is installed (concrete 7-token parse under CBMC > 20 min; regex compilation not encodable)',
- 'C06': 'check_imports/check_declared_parcelables are HashMap<String,_> folds keyed by format!-built names; CBMC does not finish a two-import scenario with the real map (15 min) nor with a Vec-backed stand-in (38 GB)',
- 'C09': 'check_methods keeps its state in two std HashMaps; one insert costs 70-700 s under CBMC, two String-key inserts never finished',
  'C12': 'every state change goes through add_content (regex lexer construction, HashMap<ID,_>) and add_file (file I/O); not encodable',
  'C13': 'needs validate over >=2 files: HashMap iteration, collect and the format!-built key map; not encodable',
 }
 PENDING = {}
-for p in ['C01','C03','C04','C05','C07','C08','C10','C11','C14','C15','C16','C17','C18','C19']:
+for p in ['C01','C03','C04','C05','C06','C07','C08','C09','C10','C11','C14','C15','C16','C17','C18','C19']:
     if p not in CHECKS:
         PENDING[p] = 'check designed (DESIGN.md section 4) but not built yet in this tree; not claimed until it is'
 
@@ -127,7 +141,7 @@ def main():
      'engines': [
        {'name': 'M', 'path': 'lib/mir.py', 'serves_properties': ['C01', 'C03', 'C04', 'C07', 'C10', 'C11', 'C17', 'C19', 'C20'], 'kind_free_text': 'nightly MIR of the current tree -> path-enumerating symbolic interpreter -> z3 (strings/integers)'},
        {'name': 'P', 'path': 'lib/tables.py lib/lrdriver.py lib/pengine.py lib/refgrammar.py', 'serves_properties': ['C03', 'C14'], 'kind_free_text': 'LALR tables extracted from the generated parser of the current tree; model of the lalrpop_util driver incl. error recovery; path-forking symbolic execution; z3 CYK of a reference grammar'},
-       {'name': 'T', 'path': 'lib/tmir.py lib/travcheck.py', 'serves_properties': ['C05', 'C08', 'C15', 'C16'], 'kind_free_text': 'event-trace symbolic executor for the traversal MIR (closures, slice iterators, ControlFlow) with inductive summaries for recursive walkers'},
+       {'name': 'T', 'path': 'lib/tmir.py lib/travcheck.py', 'serves_properties': ['C05', 'C06', 'C08', 'C09', 'C15', 'C16'], 'kind_free_text': 'event-trace symbolic executor for the traversal MIR (closures, slice iterators, ControlFlow) with inductive summaries for recursive walkers'},
        {'name': 'K', 'path': 'kani/ lib/kani.py lib/ksupport.py', 'serves_properties': ['C01', 'C04', 'C05', 'C07', 'C08', 'C10', 'C16', 'C18'], 'kind_free_text': 'Kani 0.68 / CBMC proof harnesses over the real crate (path dependency, hooks enabled)'},
        {'name': 'A', 'path': 'lib/acteval.py', 'serves_properties': ['C04', 'C01'], 'kind_free_text': 'symbolic evaluator of the machine-generated __actionN wrappers: Range::new arguments as integer terms over token spans'},
        {'name': 'L', 'path': 'lib/lexl.py', 'serves_properties': ['C03'], 'kind_free_text': 'generated lexer pattern table -> z3 regular expressions'},
